@@ -9,7 +9,7 @@ pub const EXEMPT: f64 = 0.05;
 
 pub fn judge(ctx: &Ctx, l: &mut Local, p: &Params, site: Site, date: NaiveDate) {
     use Prayer::*;
-    let r = prayer_times_dt(p, site.loc(), date, None);
+    let r = pt(p, site.loc(), date, None);
     l.evals += 1;
     let case = || PtCase::new(p, site, date);
     let dec0 = refm::dec_local_midnight(date, site.gmt);
